@@ -2261,6 +2261,13 @@ evbuffer_read_setup_vecs_(struct evbuffer *buf, ev_ssize_t howmuch,
 	if (howmuch < 0)
 		return -1;
 
+	if (howmuch == 0) {
+		/* Nothing was asked for, so nothing was made available: the
+		 * chain after a full last chain need not exist. */
+		*chainp = buf->last_with_datap;
+		return 0;
+	}
+
 	so_far = 0;
 	/* Let firstchain be the first chain with any space on it */
 	firstchainp = buf->last_with_datap;
